@@ -62,9 +62,10 @@ impl Property for C14 {
         vec!["the order of constraints inside a list is not part of the property and is not compared", "feasibility is judged from the values the Solution itself reports (the values are checked by C05)"]
     }
 
-    fn run_case(&self, _k: u64, rng: &mut Rng, env: &Env, mon: &mut Monitor) {
+    fn run_case(&self, k: u64, rng: &mut Rng, env: &Env, mon: &mut Monitor) {
         let regime = Regime::D;
         let mut cfg = InstCfg::new(regime);
+        cfg.deepen(env.tier == Tier::Thorough, k);
         cfg.max_constraints = 3;
         cfg.max_removed = 2;
         let g = gen_instance(rng, &cfg);
